@@ -221,6 +221,11 @@ def case(ctx, i, rng):
     cplx = opts["complex_mode"]
     nint = rng.choice([1, 1, 2, 3, 4])
     itypes_all = ["cell", "exterior_facet", "interior_facet"]
+    if rng.random() < 0.12:
+        # the facet measures of extruded meshes (dS_h, dS_v, ds_t, ds_b, ds_v) are interior / exterior facet integrals under
+        # other names: everything that is done for dS / ds is done for them
+        itypes_all = ["cell", rng.choice(["exterior_facet_top", "exterior_facet_bottom", "exterior_facet_vert"]), rng.choice(["interior_facet_horiz", "interior_facet_vert"]),
+                      rng.choice(["interior_facet_horiz", "interior_facet_vert"])]
     arity = rng.choice([0, 1, 1, 2, 2])
     try:
         form, pieces = gen_form(rng, cell, gdim, cplx, nint, arity, itypes_all)
